@@ -176,6 +176,9 @@ def run(check, an: Analysis):
     c01.check_drain(check, an, an.callee(LOOP, '_run_events'), 'F')
     # both wait-queue backends are the same queue: smallest key, its own bucket, removed
     c01._check_waitqueues(check, an, 'S')
+    # one date, one bucket: the turn order among wake-ups for the same date is the order
+    # in which they were asked for only if the date is the queue key as given
+    c01.check_schedule_keys(check, an, 'S')
     for qn in (HQ, SD):
         push = an.method(qn, 'push')
         ops = sorted({n.func.attr for n in ast.walk(push.node) if isinstance(n, ast.Call)
